@@ -9,6 +9,7 @@ package main
 
 import (
 	"fmt"
+	"math/big"
 	"strings"
 
 	sh "github.com/WICG/webpackage/go/signedexchange/structuredheader"
@@ -149,4 +150,52 @@ func init() {
 	p.Harnesses = append(p.Harnesses, &mc.Harness{Name: "C16/independence", Run: c16Independence,
 		Mode: "operation histories: parse calls whose results the caller overwrites before the next call"})
 	p.Rule += " C16/independence: every sequence of <= 3 (quick) / 4 (thorough) parse calls over 11 headers (parameterised lists with and without parameters, repeated labels, byte sequences; lists of lists), the caller overwriting everything reachable from each result (new key in every Params map, every value, label and inner item replaced, byte sequences inverted, spare slice capacity filled) before the next call; every later result must equal the reference parser's value and serialize to the reference's canonical text. Sharing between members of ONE result is not judged."
+}
+
+// C16/numbers: integer literals around every place where an accumulator can overflow: 2^63, 2^64, 2^64+2^63,
+// 2^65, 2^66, 2^127, 2^128, 10^18..10^22 (each -2..+2), 19..40 digits of 9, with either sign and with leading
+// zeros, as a list member and as a parameter value.  The strings harnesses stop at 7 characters.
+func c16Numbers(c *mc.Ctx) {
+	var lits []string
+	add := func(v *big.Int) {
+		for d := int64(-2); d <= 2; d++ {
+			x := new(big.Int).Add(v, big.NewInt(d))
+			lits = append(lits, x.String(), "-"+x.String())
+		}
+	}
+	for _, k := range []uint{31, 32, 62, 63, 64, 65, 66, 127, 128} {
+		add(new(big.Int).Lsh(big.NewInt(1), k))
+	}
+	add(new(big.Int).Add(new(big.Int).Lsh(big.NewInt(1), 64), new(big.Int).Lsh(big.NewInt(1), 63)))
+	add(new(big.Int).Add(new(big.Int).Lsh(big.NewInt(1), 64), big.NewInt(42)))
+	add(new(big.Int).Add(new(big.Int).Lsh(big.NewInt(3), 64), big.NewInt(7)))
+	for e := int64(17); e <= 23; e++ {
+		add(new(big.Int).Exp(big.NewInt(10), big.NewInt(e), nil))
+		add(new(big.Int).Mul(big.NewInt(2), new(big.Int).Exp(big.NewInt(10), big.NewInt(e), nil)))
+	}
+	for n := 18; n <= 40; n++ {
+		lits = append(lits, strings.Repeat("9", n), "-"+strings.Repeat("9", n), "1"+strings.Repeat("0", n), strings.Repeat("0", n)+"7")
+	}
+	lit := lits[c.Free(len(lits), "literal")]
+	var b c16Block
+	switch c.Free(4, "context") {
+	case 0:
+		c16CheckLol(c, lit, &b)
+	case 1:
+		c16CheckLol(c, "a, "+lit+"; 1", &b)
+	case 2:
+		c16CheckPl(c, "a;k="+lit, &b)
+	default:
+		c16CheckPl(c, "a;k="+lit+";j=t, b;n="+lit, &b)
+	}
+	c.State([]byte(lit))
+	c.NontrivialByConstruction(1)
+	c.Traces(b.strings)
+	c.Transitions(b.implOps)
+}
+
+func init() {
+	p := props["C16"]
+	p.Harnesses = append(p.Harnesses, &mc.Harness{Name: "C16/numbers", Run: c16Numbers})
+	p.Rule += " C16/numbers: integer literals 2^k-2..2^k+2 for k in {31,32,62,63,64,65,66,127,128}, 2^64+2^63, 2^64+42, 3*2^64+7, 10^e and 2*10^e for e in 17..23 (each -2..+2), 18..40 nines, 1 followed by 18..40 zeros, 18..40 leading zeros, both signs, in 4 contexts (list member, inner-list member, parameter value, two parameter values)."
 }
